@@ -482,6 +482,44 @@ def timespan_minus_timespan(ts1, ts2):
     return ts1 - ts2
 
 
+@specs.name('*equal')
+@specs.parameter('dt1', yaqltypes.DateTime())
+@specs.parameter('dt2', yaqltypes.DateTime())
+def datetime_eq_datetime(dt1, dt2):
+    """:yaql:operator =
+
+    Returns true if both datetimes denote the same instant (a datetime
+    without zone is taken as UTC), false otherwise.
+
+    :signature: left = right
+    :arg left: left datetime object
+    :argType left: datetime object
+    :arg right: right datetime object
+    :argType right: datetime object
+    :returnType: boolean
+    """
+    return dt1 == dt2
+
+
+@specs.name('*not_equal')
+@specs.parameter('dt1', yaqltypes.DateTime())
+@specs.parameter('dt2', yaqltypes.DateTime())
+def datetime_neq_datetime(dt1, dt2):
+    """:yaql:operator !=
+
+    Returns true if the datetimes denote different instants (a datetime
+    without zone is taken as UTC), false otherwise.
+
+    :signature: left != right
+    :arg left: left datetime object
+    :argType left: datetime object
+    :arg right: right datetime object
+    :argType right: datetime object
+    :returnType: boolean
+    """
+    return dt1 != dt2
+
+
 @specs.name('#operator_>')
 @specs.parameter('dt1', yaqltypes.DateTime())
 @specs.parameter('dt2', yaqltypes.DateTime())
@@ -1178,6 +1216,7 @@ def register(context):
         datetime_plus_timespan, timespan_plus_datetime,
         datetime_minus_timespan, datetime_minus_datetime,
         timespan_plus_timespan, timespan_minus_timespan,
+        datetime_eq_datetime, datetime_neq_datetime,
         datetime_gt_datetime, datetime_gte_datetime,
         datetime_lt_datetime, datetime_lte_datetime,
         timespan_gt_timespan, timespan_gte_timespan,
